@@ -159,6 +159,20 @@ def draw_system(ch, rng):
             k = k * (1 + 0.03j)
     elif kind in ("cdf_flag", "SolveCDF"):
         b = coupled(bd, 0.25, ["el"])
+        pattern = ch.weighted([4, 1, 1], "cd_pattern")  # dense symmetric / one-way (one row) / sparse symmetric
+        ii = idx["el"]
+        if pattern and ii.size > 1:
+            off = b - np.diag(np.diag(b))
+            keep = np.zeros_like(off)
+            r_ = int(ii[ch.draw(ii.size, "cd_row")])
+            if pattern == 1:
+                keep[r_, :] = off[r_, :]  # mode r_ feels the others' velocities, not vice versa
+            else:
+                c_ = int(ii[(list(ii).index(r_) + 1) % ii.size])
+                keep[r_, c_] = off[r_, c_]
+                keep[c_, r_] = off[c_, r_]
+            b = np.diag(np.diag(b)) + keep
+            desc["cd_pattern"] = ["dense", "one_way_row", "sparse_symmetric"][pattern]
         if mkind == 2:
             m = np.diag(mdiag)
     else:  # se2
